@@ -255,7 +255,7 @@ CHECKS = {
        "the one obtained with the 'always New' pool model on fresh objects (what a fresh process computes), and every returned example "
        "is RFC 8259 JSON. A refused AddType (taken or invalid name) leaves UserTypeCollection, Check() and Example() as they were; the "
        "OpenAPI conversion (struct level) leaves the AST intact. One type object shared by two schemas: after a first compile that fails "
-       "half-way (parent missing or not an object there) the second schema gets a fresh process's results; inherited by two heirs under "
+       "half-way (parent missing, not an object, or repeating a key there) the second schema gets a fresh process's results; inherited by two heirs under "
        "two names, the first heir and the type itself keep their origin marks. Regex examples do not depend on earlier objects "
        "(sequential model of sync.Map for process-wide caches).",
   note="sync.Pool is modelled (LIFO / fresh), not executed; OpenAPI marshalers are outside (reflection).",
